@@ -277,6 +277,24 @@ class NDArray(_Vec):
         _Vec.__init__(self, cells, None, None)
 
 
+def unlit(c):
+    """a cell holding a concrete constant (control tables, literals) as the python scalar pandas would hand out; symbolic cells stay cells"""
+    if not isinstance(c, Cell):
+        return c
+    if not z3.is_false(c.null):
+        return None if z3.is_true(c.null) else c
+    v = z3.simplify(c.val) if z3.is_expr(c.val) else c.val
+    if c.kind == "s" and z3.is_string_value(v):
+        return v.as_string()
+    if c.kind == "i" and z3.is_int_value(v):
+        return v.as_long()
+    if c.kind == "b" and (z3.is_true(v) or z3.is_false(v)):
+        return bool(z3.is_true(v))
+    if c.kind == "f" and z3.is_rational_value(v):
+        return v.numerator_as_long() / v.denominator_as_long()
+    return c
+
+
 def _mask_positions(mask):
     out = []
     for i, c in enumerate(mask.cells):
@@ -684,7 +702,9 @@ def _agg(cells, op, *args):
     if op in ("size",):
         return Cell(FALSE, z3.IntVal(n), "i")
     if op == "count":
-        return Cell(FALSE, z3.Sum([z3.If(c.null, 0, 1) for c in cells]) if cells else z3.IntVal(0), "i", dc, kf)
+        # accepted difference: count over a group with no non-null value (0 here, NULL where an engine sums nothing)
+        nothing = zand(*[c.null for c in cells]) if cells else TRUE
+        return Cell(FALSE, z3.Sum([z3.If(c.null, 0, 1) for c in cells]) if cells else z3.IntVal(0), "i", zor(dc, nothing), kf)
     if op == "nunique":
         # number of distinct non-null values
         terms = []
@@ -980,7 +1000,7 @@ class _Loc:
             if len(hits) != 1:
                 raise Unmodelled("loc[label] missing/duplicate")
             if isinstance(cols, str):
-                return df._cols[cols][hits[0]]
+                return unlit(df._cols[cols][hits[0]])
             raise Unmodelled("loc[int, list]")
         else:
             raise Unmodelled(f"loc rows {type(rows)}")
@@ -1036,7 +1056,7 @@ class _ILoc:
         df = self.df
         rows, cols = key
         if isinstance(rows, int) and isinstance(cols, int):
-            return df._cols[list(df._cols)[cols]][rows]
+            return unlit(df._cols[list(df._cols)[cols]][rows])
         if isinstance(rows, (range, list)):
             r = list(rows)
             adj = getattr(df, "_adj_ties", None)
@@ -1146,7 +1166,9 @@ class DataFrame:
 
     @columns.setter
     def columns(self, names):
-        names = list(names)
+        names = [unlit(x) for x in names]
+        if any(isinstance(x, Cell) for x in names):
+            raise Unmodelled("symbolic value used as a column name")
         if len(names) != len(self._cols):
             raise ValueError("Length mismatch")
         self._note_mutation("columns=")
